@@ -1,4 +1,51 @@
-import JV.Model.Cbor
+/-
+  C08 — encoders emit only well-formed output; transcoding stays valid.
+
+  Proved here: the container-length bookkeeping of the CBOR encoder (Model JV.Model.EncoderLen = stack_item /
+  end_value / visit_begin_* / visit_end_* of cbor_encoder.hpp; the MessagePack and UBJSON encoders use the
+  same scheme), for event sequences of any shape and depth: if every announced length equals the number
+  of items actually pushed the sequence is accepted and counts as exactly one item of its parent; an
+  array or object announced with a wrong length is refused with too_few_items / too_many_items. Together
+  with C06.cbor_roundtrip (the bytes written for accepted data decode, under the RFC 8949 reference
+  decoder, to that data) this is the CBOR instance of the property on the data-model core.
+
+  Decided per case on the real code (see the check's streams): all four binary encoders and both JSON
+  encoders on generated event sequences (right, wrong and absent lengths; tags; string packing), outputs
+  judged by the Lean reference decoders / RFC 8259 reference parser and by decoding them back;
+  MessagePack timestamps by an independent reader; transcoding between all formats and to JSON text.
+  D27, D28 were found there and repaired; D13 is recorded.
+-/
+import JV.Proofs.EncoderLen
+import JV.Proofs.CborRoundtrip
 namespace JV.Props.C08
-theorem placeholder : True := trivial
+open JV Model.EncoderLen
+
+/-- exact announcements are accepted, at any nesting, inside any enclosing context -/
+theorem exact_lengths_accepted (t : Tree) (st : List Frame) (h : Exact t) : run st (events t) = .ok (endValue st) :=
+  run_exact t st h
+
+/-- a whole document with exact announcements leaves the encoder balanced -/
+theorem document_accepted (t : Tree) (h : Exact t) : run [] (events t) = .ok [] := by
+  simpa [endValue] using run_exact t [] h
+
+/-- too few or too many items in an array are reported, never written -/
+theorem wrong_array_length_refused (n : Nat) (xs : List Tree) (st : List Frame) (hne : n ≠ xs.length) (hx : ExactList xs) :
+    run st (events (.arr (some n) xs)) = .error (if xs.length < n then .tooFew else .tooMany) :=
+  run_wrong_array n xs st hne hx
+
+theorem wrong_object_length_refused (n : Nat) (ms : List Tree) (st : List Frame) (hne : n ≠ ms.length) (hx : ExactList ms) :
+    run st (events (.obj (some n) ms)) = .error (if ms.length < n then .tooFew else .tooMany) :=
+  run_wrong_object n ms st hne hx
+
+/-- accepted CBOR core data is written as bytes that denote exactly that data (restated from C06 for this property) -/
+theorem cbor_output_denotes_input (v : Model.Cbor.CV) (hv : Model.Cbor.OK v) (rest : Bytes) :
+    Spec.Cbor.item (Model.Cbor.need v) none (Model.Cbor.encode v ++ rest) = .ok (Model.Cbor.toBV v) rest :=
+  Model.Cbor.enc_dec v rest _ hv (Nat.le_refl _)
+
+/-! ### non-vacuity -/
+example : Exact (.arr (some 2) [.scalar, .obj none [.scalar, .arr (some 0) []]]) := by
+  simp [Exact, ExactList]
+example : run [] (events (.arr (some 2) [.scalar])) = .error .tooFew := by rfl
+example : run [] (events (.obj (some 1) [.scalar, .scalar])) = .error .tooMany := by rfl
+
 end JV.Props.C08
